@@ -42,6 +42,9 @@ const (
 	flawStaleKillsLive      // a stale reference seen first takes the table entry of the live object: the live object is lost
 	flawNestedString        // the string inside a nested direct container is altered
 	flawNestedRef           // the reference inside a nested direct container is not translated (left dangling)
+	flawParmRefKept         // the reference inside a filter parameter dictionary keeps its source number (the object is copied all the same)
+	flawParmRefDup          // ... leads to a copy of its own instead of the shared one
+	flawParmEntryLost       // ... is dropped from the parameter dictionary
 )
 
 type modelCopier struct {
@@ -187,8 +190,9 @@ func (mc *modelCopier) contentOf(o Obj, j int) pdf.Object {
 		return d
 	case 'S':
 		d := pdf.Dict{}
-		if len(o.It) > 0 {
-			d[stmKey] = mc.item(o.It[0], j, 0)
+		pIt, kIt, kPos := o.stmParts()
+		if len(kIt) > 0 {
+			d[stmKey] = mc.item(kIt[0], j, kPos)
 		}
 		plain := plainData(j, o.V)
 		if mc.flaw == flawStreamBytes {
@@ -196,6 +200,37 @@ func (mc *modelCopier) contentOf(o Obj, j int) pdf.Object {
 			plain[0] ^= 1
 		}
 		raw := plain
+		if ps, ok := parmOf(o.V); ok {
+			// parm-reference family: everything inlined, the reference inside
+			// the parameter dictionary translated like any other
+			tp := mc.item(pIt[0], j, 0)
+			switch {
+			case mc.flaw == flawParmRefKept && pIt[0].K == 'r':
+				tp = mc.s.refs[pIt[0].R]
+			case mc.flaw == flawParmRefDup && pIt[0].K == 'r':
+				if t, _ := mc.s.g.itemTerminal(pIt[0]); t >= 0 {
+					tt := mc.w.Alloc()
+					mc.w.Put(tt, mc.content(t))
+					tp = tt
+				}
+			case mc.flaw == flawParmEntryLost:
+				tp = nil
+			}
+			d["Filter"], d["DecodeParms"] = parmInlined(ps, parmDict(ps.filter, tp))
+			raw = parmRaw(ps, plain)
+			if mc.mem != nil {
+				// described as data: the dictionary with the filter entries (the
+				// oracle looks the parameter dictionary up in them) and the bytes
+				// the oracle compares: decoded, or as stored for opaque data
+				stm := &pdf.Stream{Dict: d}
+				mc.mem.data[stm] = plain
+				if stmRawOnly(o.V) {
+					mc.mem.data[stm] = raw
+				}
+				return stm
+			}
+			return pdf.NewStream(d, raw)
+		}
 		switch o.V {
 		case stmFlate:
 			d["Filter"] = pdf.Name("FlateDecode")
@@ -303,6 +338,15 @@ func modelExecute(s *source, prog []Op, tgtCfg string, fl flaw, inMemory bool) (
 			nRedirect++
 			mc.redirect[op.J] = st.ref
 			delete(lastR, op.J)
+		}
+		// the copier's table, as the real one would report it (fingerprints only)
+		for t, tt := range mc.trans {
+			if _, redirected := mc.redirect[t]; !redirected {
+				st.trans = append(st.trans, [2]pdf.Reference{s.refs[t], tt})
+			}
+		}
+		for t, tt := range mc.redirect {
+			st.trans = append(st.trans, [2]pdf.Reference{s.refs[t], tt})
 		}
 		ex.steps = append(ex.steps, st)
 	}
